@@ -315,6 +315,81 @@ def one_history(ctx, rng, N, batch, ci, dist):
     return len(w.rec)
 
 
+def deep_defaults_part(ctx, dist):
+    """Signature defaults that are containers of mutable objects (a tuple / NamedTuple / dict / list / instance holding a
+    list): a body that mutates the inner object must never change the default, whatever the container's own mutability."""
+    import collections
+    from hypergraph import AsyncRunner, Graph, SyncRunner
+    from hypergraph.nodes import FunctionNode
+    rng = ctx.rng
+    Journal = collections.namedtuple("Journal", ["entries", "meta"])
+
+    class Box:
+        def __init__(self):
+            self.items = []
+
+    makers = {
+        "tuple": (lambda: ([], "v1"), lambda d: d[0], lambda d: list(d[0])),
+        "namedtuple": (lambda: Journal([], {}), lambda d: d.entries, lambda d: list(d.entries)),
+        "nested_tuple": (lambda: (("k", [0]),), lambda d: d[0][1], lambda d: list(d[0][1])),
+        "dict": (lambda: {"log": []}, lambda d: d["log"], lambda d: list(d["log"])),
+        "list_of_lists": (lambda: [[1], []], lambda d: d[1], lambda d: list(d[1])),
+        "instance": (Box, lambda d: d.items, lambda d: list(d.items)),
+        "frozen_pair": (lambda: (frozenset({1}), [5]), lambda d: d[1], lambda d: list(d[1])),
+    }
+    n = 0
+    for _ in range(ctx.n(30, 300)):
+        shape = rng.choice(sorted(makers))
+        make, inner, snap = makers[shape]
+        default = make()
+        pristine = snap(default)
+        seen = []
+        is_async = rng.random() < 0.5
+
+        if is_async:
+            async def body(x, acc=default):
+                seen.append(snap(acc))
+                inner(acc).append(x)
+                return len(inner(acc))
+        else:
+            def body(x, acc=default):
+                seen.append(snap(acc))
+                inner(acc).append(x)
+                return len(inner(acc))
+        node = FunctionNode(body, name="body", output_name="count")
+        G = Graph([node])
+        if rng.random() < 0.4:
+            G = Graph([G.as_node(name="wrapped")])
+        runs = rng.randint(2, 4)
+        results = []
+        try:
+            if is_async:
+                runner = AsyncRunner()
+
+                async def go():
+                    if rng.random() < 0.5:
+                        return [r["count"] for r in await asyncio.gather(*[runner.run(G, {"x": 7}) for _ in range(runs)])]
+                    return [(await (runner if rng.random() < 0.5 else AsyncRunner()).run(G, {"x": 7}))["count"] for _ in range(runs)]
+                results = asyncio.run(go())
+            else:
+                runner = SyncRunner()
+                results = [(runner if rng.random() < 0.5 else SyncRunner()).run(G, {"x": 7})["count"] for _ in range(runs)]
+        except Exception as e:  # noqa: BLE001
+            ctx.violation("oracle", f"run with a {shape} default raised {type(e).__name__}: {e}", case={"default_shape": shape, "async": is_async})
+            continue
+        n += runs
+        dist["deep_defaults"] = dist.get("deep_defaults", 0) + 1
+        case = {"default_shape": shape, "async": is_async, "runs": runs}
+        if snap(default) != pristine:
+            ctx.violation("oracle", f"the signature default ({shape}) was modified by the runs: inner object is now {snap(default)}, was {pristine}", case=case)
+        if any(sv != pristine for sv in seen):
+            ctx.violation("oracle", f"a body saw {[sv for sv in seen if sv != pristine][0]} in its ({shape}) default on entry, the default holds {pristine}: "
+                          "state leaked from an earlier run", case=case)
+        if len(set(results)) != 1:
+            ctx.violation("oracle", f"equal inputs gave different results across runs: {results} ({shape} default)", case=case)
+    return n
+
+
 def run(ctx):
     rng = ctx.rng
     N = Names()
@@ -326,6 +401,7 @@ def run(ctx):
         n_eval += one_history(ctx, rng, N, batch, ci, dist)
         dist["histories"] += 1
         cases += 1
+    n_eval += deep_defaults_part(ctx, dist)
     res = batch.run()
     if res["error"]:
         ctx.violation("harness", res["error"])
@@ -338,7 +414,8 @@ def run(ctx):
         rule="graphs of 2-4 nodes; each node appends its tag to the list objects it receives for some parameters (signature defaults incl. a default "
              "parameter shared by several nodes; in non-pure histories also bound / provided lists); 2-4 runs per history, the same input mapping "
              "object or equal copies; modes: one SyncRunner, fresh SyncRunners, AsyncRunner sequential, AsyncRunner concurrent (gather, random "
-             "suspension points), nested graph; every second history runs a second graph over the same node objects in between",
+             "suspension points), nested graph; every second history runs a second graph over the same node objects in between; plus (oracle only) "
+             "defaults that are containers of mutable objects (tuple, NamedTuple, nested tuple, dict, list of lists, instance) mutated through the container",
         distribution=dist, model_checks=len(batch))
     ctx.assumptions += ["copy.deepcopy on lists of ints is modelled as allocation of an equal list", "nested histories are decided by the oracle only",
                         "asyncio task switching happens only at the bodies' explicit suspension points (before they read their arguments)"]
